@@ -96,7 +96,8 @@ func (c *Client) Backoff(err error) <-chan struct{} {
 }
 
 // Ping makes a roundtrip to validate the connection. Client allows only one
-// ping at a time. Redundant requests get ErrMax.
+// ping at a time. Redundant requests get ErrMax. An abandoned request counts
+// until either its response arrives or the connection is lost.
 //
 // Quit is optional, as nil just blocks. Appliance of quit will strictly result
 // in either ErrCanceled or ErrAbandoned.
@@ -130,14 +131,8 @@ func (c *Client) Ping(quit <-chan struct{}) error {
 		}
 		c.writeSem <- connPending // unlock write; pending connect
 		verifYield("w.fail")
-		select {
-		case ack := <-c.pingAck: // unlock
-			if ack != done {
-				c.restorePingAck(ack)
-			}
-		default: // picked up by unrelated pong
-		}
-		verifYield("ping.clean")
+		// The read routine releases the callback, as
+		// it does for any connection loss (toOffline).
 		return fmt.Errorf("%w; PING in limbo", errors.Join(ErrSubmit, err))
 	}
 	c.writeSem <- conn // unlock write
@@ -149,30 +144,12 @@ func (c *Client) Ping(quit <-chan struct{}) error {
 		return err
 	case <-quit:
 		verifYield("ping.quit")
-		select {
-		case ack := <-c.pingAck: // unlock
-			verifYield("ping.unslot")
-			if ack != done {
-				c.restorePingAck(ack)
-				return <-done
-			}
-			return fmt.Errorf("%w; PING not confirmed", ErrAbandoned)
-		default: // picked up in mean time
-			verifYield("ping.late")
-			return <-done
-		}
-	}
-}
-
-// RestorePingAck undoes the removal of a callback from another Ping. The slot
-// may have been released (on connection loss) and reused in the mean time.
-func (c *Client) restorePingAck(ack chan<- error) {
-	select {
-	case c.pingAck <- ack:
-		break // OK
-	default:
-		// slot taken already; won't block due buffer
-		ack <- fmt.Errorf("%w; PING not confirmed", ErrBreak)
+		// The callback stays in place until the read routine consumes
+		// it, either with the PINGRESP or with a connection loss. The
+		// slot can hold the callback of another Ping by now, which
+		// must not miss its PINGRESP, and a late PINGRESP must not
+		// be taken for the response to a Ping which follows.
+		return fmt.Errorf("%w; PING not confirmed", ErrAbandoned)
 	}
 }
 
